@@ -184,6 +184,10 @@ func vFamilies(thorough bool) []map[string][]vRule {
 		map[string][]vRule{"Root": {id, {"Open", `\(`, "push:A"}}, "A": {cl, inc("Root")}},
 		map[string][]vRule{"Root": {inc("A"), inc("B")}, "A": {id}, "B": {ws, inc("A")}},
 		map[string][]vRule{"Root": {inc("Zb"), inc("Za")}, "Za": {inc("Zc"), ws}, "Zb": {id}, "Zc": {under, cl}},
+		// state names that need escaping in JSON, and a user rule that happens to be called like the Return() sentinel
+		map[string][]vRule{"Root": {id, {"Open", `\(`, "push:S\x7f\a\U000e0041"}}, "S\x7f\a\U000e0041": {cl, ws, inc("Root")}},
+		map[string][]vRule{"Root": {{"returnToParent", `r+`, ""}, id, ws}},
+		map[string][]vRule{"Root": {id, {"returnToParent", `\(`, "push:A"}}, "A": {cl, {"", "", "return"}}},
 	)
 	for _, r := range roots {
 		if len(r) == 0 {
@@ -250,7 +254,7 @@ func newNoPanic(rules Rules) (def *StatefulDefinition, err error, panicked inter
 // matches start at offset 0 (the rulesOK invariant Next's proof assumes: C03, C04, C07).
 func TestVerif_C03C04C07_New(t *testing.T) {
 	res := &verifResult{Check: "lexer.New", Property: "C03 C04 C07", Exhaustive: true,
-		Bound: "all rule maps with states Root (1-2 rules over the full alphabet), optional A (1-3 rules over {Ident, ws, Close/pop, return}; thorough: also 1-2 over the full alphabet, plus optional B with 1 rule) over the rule alphabet of vAlphabet (plain / lower-case / underscore-initial names, metacharacter and unbalanced patterns, push, pop, include, return; a non-ASCII lower-case name; thorough adds unknown targets and digit-initial names); plus 6 rule maps with chains of includes over 3-4 states; include cycles excluded",
+		Bound: "all rule maps with states Root (1-2 rules over the full alphabet), optional A (1-3 rules over {Ident, ws, Close/pop, return}; thorough: also 1-2 over the full alphabet, plus optional B with 1 rule) over the rule alphabet of vAlphabet (plain / lower-case / underscore-initial names, metacharacter and unbalanced patterns, push, pop, include, return; a non-ASCII lower-case name; thorough adds unknown targets and digit-initial names); plus 6 rule maps with chains of includes over 3-4 states and 3 with state names needing JSON escapes / a user rule named returnToParent; include cycles excluded",
 		Rule: "distinct rule maps; non-trivial = accepted by New and containing an action, include or return"}
 	seen := map[string]bool{}
 	for _, states := range vFamilies(verifThorough()) {
@@ -384,7 +388,7 @@ func TestVerif_C16_JSON(t *testing.T) {
 	res := &verifResult{Check: "lexer JSON round trip", Property: "C16", Exhaustive: true,
 		Bound: "the rule maps of TestVerif_C03C04C07_New that New accepts; token streams compared on 12 inputs up to 6 bytes",
 		Rule: "distinct accepted rule maps; non-trivial = contains an action, include or return"}
-	inputs := []string{"", "a", "ab c", "(a)", "((a))b", ")", "a_b", "b", "xxb", "< a", "\"q\"", "é1"}
+	inputs := []string{"", "a", "ab c", "(a)", "((a))b", ")", "a_b", "b", "xxb", "< a", "\"q\"", "é1", "rr a", "a (a) r"}
 	seen := map[string]bool{}
 	for _, states := range vFamilies(verifThorough()) {
 		if includeCycle(states) {
